@@ -5,7 +5,7 @@ from harness.joinlib import h_join, join_pre
 
 H.standard_env()
 ASSUMPTIONS = [
-    'rows per table <= 2 (quick) / 3 (thorough); 1-2 key columns; key cells are in canonical form: z3 enumerates exactly one representative per '
+    'rows per table <= 2 (quick) / 3 (thorough); 1-3 key columns (the third repeats the first column\'s equality pattern in another type); key cells are in canonical form: z3 enumerates exactly one representative per '
     'equality pattern (set partition) of the key cells, one class optionally None - sound because the join inspects keys only through ==/hash; '
     'the unreduced domain {None,0,1,2}^n is run at 2x2 in the thorough tier as a hedge',
     'payload cells are unbounded symbolic ints; a hidden row-id column on each side makes the origin of every output row observable',
@@ -24,7 +24,7 @@ def obligations(tier, kind='inner', mode='rows', prefix='inner'):
         tag = ','.join('%s=%s' % (k, c[k]) for k in ('K', 'W', 'ktype', 'spec') if (k in kw))
         hs = c.pop('hashseed', 0)
         name = '%s[%dx%d%s%s]' % (prefix, nl, nr, (',' + tag) if tag else '', (',seed=%d' % hs) if 'seed' in kw or hs else '')
-        big = (nl + nr >= 5) or c['K'] == 2
+        big = (nl + nr >= 5) or c['K'] >= 2
         obs.append(dict(name=name, fn='h_join', config=c, hashseed=hs, budget=(150 if big else 90) if q else (1200 if big else 400),
                         bounds='%dx%d rows, K=%d key columns (%s), all key equality patterns%s, W=%d symbolic int payload column(s) per side, keys given by %s'
                         % (nl, nr, c['K'], c['ktype'], ' incl. a None class' if c.get('nones', True) else '', c['W'], c['spec']),
@@ -40,6 +40,8 @@ def obligations(tier, kind='inner', mode='rows', prefix='inner'):
     for sp in ('col', 'ext'):
         add(2, 2, spec=sp)
     add(2, 2, K=2, spec='mixed', nones=False, W=0)
+    add(2, 2, K=3, nones=False, W=0)
+    add(2, 1, K=3, spec='mixed', W=1)
     for seed in (1, 2):
         add(2, 2, ktype='str', hashseed=seed)
     if not q:
